@@ -20,6 +20,8 @@ def _account_stream(stats, plan, tr):
             stats.probe('must_skip_demands', sum(1 for s in lay['segs'] if s['must_skip']))
         if any('B' in it['cls'] for it in plan['items']):
             stats.probe('embedded_signature_streams')
+        if any('D' in it['cls'] and it.get('fault') for it in plan['items']):
+            stats.probe('streams_with_a_data_damaged_definition_message')
         if any('D' in it['cls'] for it in plan['items']):
             stats.probe('streams_with_a_definition_message')
             if plan['knobs'].get('filter'):
@@ -85,6 +87,8 @@ def _account_stream(stats, plan, tr):
             if it.get('fault'):
                 stats.faults_fired['data:' + it['fault']['region']] = stats.faults_fired.get('data:' + it['fault']['region'], 0) + 1
     elif fam == 'c17':
+        if 'D' in plan['items'][0]['cls']:
+            stats.probe('definition_message_decoded_metadata_only')
         stats.steps += 1 + len(plan.get('exprs', []))
         f = plan['items'][0].get('fault')
         if f:
@@ -184,6 +188,8 @@ def _account_def(stats, plan, tr):
             if it.get('uses_redefined'):
                 stats.probe('reused_descriptor_list_after_redefinition')
         if it['kind'] == 'def':
+            for part in it.get('fixed_parts', []):
+                stats.probe('definition_part_%s_under_fixed_replication' % part)
             stats.probe('b_entries', len(it['b']))
             if not it['b']:
                 stats.probe('definitions_without_b_entries')
@@ -276,7 +282,7 @@ def c08(tier):
                        '(corpus templates incl. marker operators, synthetic ones); deciding it for all templates is '
                        'translation validation, a different technique'],
         _account_hist, extra_cov=_extra_hist,
-        pool_kwargs=dict(HIST_POOL_THOROUGH, n_ops=500, n_tabled=600) if tier == 'thorough' else dict(HIST_POOL, n_ops=80, n_tabled=60),
+        pool_kwargs=dict(HIST_POOL_THOROUGH, n_ops=500, n_tabled=-1) if tier == 'thorough' else dict(HIST_POOL, n_ops=80, n_tabled=60),
         design_ref='5.3')
 
 
@@ -296,7 +302,7 @@ ASSUME_DEF = [
 def c20(tier):
     return runner.check_main(
         'C20', tier, defsim, 'defsim',
-        [('c20', 500, 20000), ('c20-redef', 400, 16000), ('c20-ncep', 300, 12000)],
+        [('c20', 500, 20000), ('c20-redef', 400, 16000), ('c20-ncep', 300, 12000), ('c20-fixed', 200, 8000)],
         'exploration',
         'seeded stream sessions of 3..14 messages {std data message (table group cached before a definition), '
         'definition message with 1..8 new Table B and 0..4 new Table D entries, data message over defined and '
